@@ -161,6 +161,12 @@ def end_to_end(chk, tier):
             for third in ('H%d:H%d' % (off + 1, off + h), 'H%d' % (off + 1)):
                 formulas.append('=SUMIF(%s,%s,%s)' % (R(col), text, third))
                 reqs.append('ci sumif %s 1 %s %s %s' % (core.enc(shifted), col_enc(cols[col]), core.enc(rendered), st))
+        if h >= 4:
+            for col, kind, op, val, rendered, text in rng.sample(crit_forms, 6):
+                top = rng.randint(2, h - 1)                         # criteria range rows top..h, whole-column target H:H -> H1..H(h-top+1)
+                part = cols[col][top - 1:]
+                formulas.append('=SUMIF(%s%d:%s%d,%s,H:H)' % (col, top, col, h, text))
+                reqs.append('ci sumif %s 1 %s %s %s' % (core.enc([[v] for v in tgt2[:len(part)]]), col_enc(part), core.enc(rendered), struct(kind, op, val)))
         # several pairs
         for _ in range(12):
             pairs = rng.sample(crit_forms, rng.randint(2, 3))
